@@ -106,7 +106,9 @@ def r_ledger(root):
     # quantifier + both repositories
     inst += 2
     rm = defs["remove_models_from_repositories"][0]
-    recv = [ast.unparse(c.func.value) for c in calls(rm) if callee_name(c) == "remove_models"]
+    from sa import sem as _sem
+    _fi_rm = _sem.info(rm)
+    recv = [ast.unparse(_fi_rm.expand(c.func.value, at=c)) for c in calls(rm) if callee_name(c) == "remove_models"]
     if not (any("_tx_metamodel._tx_model_repository" in r for r in recv) and any(r == "model._tx_model_repository" for r in recv)):
         out.append(Finding("C18", "C18.a", "textx/scoping/__init__.py", "remove_models_from_repositories", str(recv), "models are not removed from both the metamodel's global repository and the models' own repositories"))
     for h in handlers:
